@@ -3,7 +3,6 @@ import io
 
 import numpy as np
 
-from .. import framework as fw
 from .. import lasobj as lo
 
 ID = "C03"
@@ -25,8 +24,6 @@ ASSUMPTIONS = ["LAS-conformant fields as in the property text; additionally a mn
                "section title in LAS; theorem C03_counterexample_comment_mnemonic)",
                "~Other text in normal form: lines separated by '\\n', stripped, not starting with '~', no trailing newline",
                "VERS (and WRAP when wrap= is passed) are the writer's own items for the target version, not the object's",
-               "mnemonic_case upper/lower: the case map does not move a 1.2 ~Well mnemonic into or out of {STRT,STOP,STEP,NULL,strt,stop,step,null} "
-               "(known finding well-case-variant-order-1.2 otherwise)",
                "characters outside the model's upper/lower alphabet (Basic.lean) are not generated"]
 
 VERSIONS = [(1.2, "1.2"), (2.0, "2.0")]
@@ -62,7 +59,9 @@ def real_write(spec, v, wrap):
     try:
         las.write(s, version=v, **kw)
     except Exception as e:
-        return las, None, type(e).__name__
+        # an exception raised while the DATA section is written leaves the complete header in the file object
+        part = s.getvalue()
+        return las, (part if "\n~ASCII" in part else None), type(e).__name__
     return las, s.getvalue(), None
 
 
@@ -172,17 +171,6 @@ def oracle(run, spec, vfloat, vkey, wrap, c, text, case):
         run.fail("other-text", case, {"expected": exp_other, "observed": got.other})
 
 
-def classify(failure):
-    """known finding: a 1.2 ~Well mnemonic that the case map moves into / out of the value-first table"""
-    c, d = failure["case"], failure.get("detail") or {}
-    if failure["clause"] == "item-roundtrip" and d.get("section") == "Well" and c.get("version") == "1.2" \
-            and c.get("mnemonic_case") in ("upper", "lower"):
-        m = d.get("orig", "")
-        if (m in lo.ORDER12) != (casef(c["mnemonic_case"])(m) in lo.ORDER12):
-            return "well-case-variant-order-1.2"
-    return None
-
-
 # ------------------------------------------------------------------ one case
 def spec_in_domain(spec):
     las = lo.build(spec)
@@ -212,12 +200,36 @@ def nontrivial(spec, vkey):
     return False
 
 
-def check_spec(run, spec, vfloat, vkey, wrap, cases, tag, pend, in_domain=None):
+def check_spec(run, spec, vfloat, vkey, wrap, cases, tag, pend, in_domain=None, oracle_on=None, reread=None):
+    """reread=c: the object written is not the built one but the one obtained by reading its own output with
+    mnemonic_case=c (index_initial set, mnemonic_transforms on for upper/lower)"""
     if in_domain is None:
         in_domain = spec_in_domain(spec)
+    if oracle_on is None:
+        oracle_on = in_domain and reread is None
     case = {"spec": spec, "version": vkey, "wrap": wrap}
-    las, text, exc = real_write(spec, vfloat, wrap)
-    twin = lo.build(spec)
+    if reread is None:
+        las, text, exc = real_write(spec, vfloat, wrap)
+        twin = lo.build(spec)
+    else:
+        import lasio
+        case["reread"] = reread
+        _, text0, exc0 = real_write(spec, 2.0, None)
+        if text0 is None:
+            return
+        try:
+            las = lasio.read(text0, mnemonic_case=reread)
+            twin = lasio.read(text0, mnemonic_case=reread)
+        except Exception:
+            return
+        s = io.StringIO()
+        text, exc = None, None
+        try:
+            las.write(s, version=vfloat, **({} if wrap is None else {"wrap": wrap}))
+            text = s.getvalue()
+        except Exception as e:
+            exc = type(e).__name__
+            text = s.getvalue() if "\n~ASCII" in s.getvalue() else None
     try:
         lo.pre_write_update(twin)
     except Exception:
@@ -230,6 +242,9 @@ def check_spec(run, spec, vfloat, vkey, wrap, cases, tag, pend, in_domain=None):
     if text is None:
         pend.append(("header", case, req, {"raise": exc}, in_domain))
         return
+    if exc is not None:
+        run.dist["data-section-raised-after-header"] += 1
+        oracle_on = False
     lines = text.split("\n")
     real_after = {"Well": [lo.wval(i.value) for i in lo.section_items(las, "Well")],
                   "Parameter": [lo.wval(i.value) for i in lo.section_items(las, "Parameter")]}
@@ -248,7 +263,7 @@ def check_spec(run, spec, vfloat, vkey, wrap, cases, tag, pend, in_domain=None):
             pend.append(("readsection", dict(case, mnemonic_case=c, section=k),
                          {"op": "wr.readsection", "version": vkey, "kind": k, "case": c, "lines": ls},
                          real_read_section(k, vfloat, ls, c), in_domain))
-        if in_domain:
+        if oracle_on:
             oracle(run, spec, vfloat, vkey, wrap, c, text, dict(case, mnemonic_case=c))
     c0 = cases[0]
     for k in lo.SECTIONS:
@@ -263,7 +278,7 @@ def flush(run, pend):
     if run.model is None:
         pend.clear()
         return
-    ans = lo.ask(run.model, [p[2] for p in pend])
+    ans = run.model.ask([p[2] for p in pend])
     for (stream, case, req, real, indom), m in zip(pend, ans):
         run.traces += 1
         if stream == "header":
@@ -352,16 +367,14 @@ def run(run):
         if len(pend) >= 3000:
             flush(run, pend)
 
-    # known finding (re-run through the oracle on every run)
-    check_spec(run, KNOWN_CASE, 1.2, "1.2", None, ["upper"], "known-input", pend, in_domain=True)
+    # the input of the repaired defect well-case-variant-order-1.2 (lasio 4979e47): `Null` in a 1.2 ~Well section read with
+    # mnemonic_case upper / lower; run first on every run
+    check_spec(run, KNOWN_CASE, 1.2, "1.2", None, CASES, "repaired-case-variant-input", pend, in_domain=True)
     # exhaustive widest x unit x value
     n = 0
     for spec in exhaustive_specs():
-        vfloat, vkey = VERSIONS[n % 2]
-        if run.tier == "quick" and n % 2 == 1 and (n // 2) % 2 == 1:
-            n += 1
-            continue
-        check_spec(run, spec, vfloat, vkey, None, [CASES[n % 3]], "exhaustive-widest", pend, in_domain=True)
+        for vfloat, vkey in VERSIONS:
+            check_spec(run, spec, vfloat, vkey, None, [CASES[n % 3]], "exhaustive-widest", pend, in_domain=True)
         n += 1
         maybe_flush()
     run.dist["exhaustive-widest-specs"] = n
@@ -373,6 +386,23 @@ def run(run):
         indom = spec_in_domain(spec)
         check_spec(run, spec, vfloat, vkey, wrap, CASES, "generated", pend, in_domain=indom)
         maybe_flush()
+    # objects that come from reading (index_initial set; mnemonic_transforms on), written again: correspondence only
+    for i in range(run.budget(150, 3000)):
+        spec = lo.gen_spec(run.rng)
+        vfloat, vkey = VERSIONS[i % 2]
+        check_spec(run, spec, vfloat, vkey, [None, True, False][i % 3], [CASES[i % 3]], "reread", pend, reread=CASES[(i // 2) % 3])
+        maybe_flush()
+    # ~Version without WRAP / VERS, duplicated VERS / WRAP: KeyError for wrap=None, append instead of replace
+    for i, (dele, extra) in enumerate([(["WRAP"], []), (["VERS"], []), (["WRAP", "VERS"], []), ([], [["WRAP", "", ["s", "YES"], "second"]]),
+                                      ([], [["VERS", "", ["f", (2.0).hex()], "second"]]), ([], [["wrap", "", ["s", "NO"], "lower"]]),
+                                      (["DLM"], [])]):
+        for wrap in (None, True, False):
+            for vfloat, vkey in VERSIONS:
+                spec = lo.gen_spec(run.rng)
+                spec["version_delete"] = dele
+                spec["version"] = extra
+                check_spec(run, spec, vfloat, vkey, wrap, ["preserve"], "version-section-edits", pend, in_domain=True, oracle_on=False)
+    flush(run, pend)
     # context stream: non-conformant items (model vs real only)
     for i, spec in enumerate(context_specs(run.rng, run.budget(300, 6000))):
         vfloat, vkey = VERSIONS[i % 2]
@@ -404,9 +434,7 @@ def still_fails(spec, vkey, wrap, c):
 
         def fail(self, clause, case, detail=None):
             f = dict(clause=clause, case=case, detail=detail)
-            kid = classify(f)
-            if kid is None or kid not in fw.known_ids(ID):
-                self.failures.append(f)
+            self.failures.append(f)
     r = R()
     r.failures = []
     vfloat = 1.2 if vkey == "1.2" else 2.0
@@ -468,5 +496,5 @@ LEVEL_TEXT = ("Machine-checked Lean 4 theorems about an executable model of the 
               "differential comparison of the compiled model with las.write and with the real section parser, and the property's oracle "
               "through lasio.read.")
 LEVEL_NOTE = ("num() is not part of this model (values are raw text; the oracle applies the real num). The reader's section finding / ~Other "
-              "collection is covered by the oracle only. Forced hypotheses: mnemonic not starting with '#'/'~'; case map not moving a 1.2 ~Well "
-              "mnemonic across the value-first table (known finding).")
+              "collection is covered by the oracle only. Forced hypothesis: mnemonic not starting with '#'/'~'. The order lookup is the two-step "
+              "(exact, then upper-cased) one of both reader and writer; C03_case_stable proves they agree under every mnemonic_case.")
